@@ -59,6 +59,7 @@ type vJob struct {
 	taskErrored      bool
 	graphChecked     bool
 	taskCanceledReported bool
+	removed              bool // no longer reported: a save removed it (retention / pipeline no longer defined)
 }
 
 type vCancelGo struct {
@@ -81,6 +82,10 @@ type vWorld struct {
 	retResult error
 	events    int
 	envAtRunner map[*PipelineJob]map[string]string
+	undefined   bool // the focal pipeline is currently not defined
+	undefs      int
+	saves       int
+	out         *vOutputStore
 }
 
 var vW *vWorld
@@ -232,7 +237,7 @@ func vMakeDefs(tag string, gen int) *definition.PipelinesDef {
 // ---- ghost helpers ----
 
 func (vj *vJob) waitingLive() bool {
-	return vj.job.Start == nil && !vj.job.Canceled
+	return vj.job.Start == nil && !vj.job.Canceled && !vj.removed
 }
 
 func (w *vWorld) liveCount() int {
@@ -355,7 +360,7 @@ type vEvent struct {
 
 func (w *vWorld) enabled(maxJobs, maxReloads int) []vEvent {
 	var evs []vEvent
-	if len(w.jobs) < maxJobs {
+	if len(w.jobs) < maxJobs && !w.undefined {
 		evs = append(evs, vEvent{kind: 0})
 		if verifBound("reservedvar", 1) == 1 {
 			evs = append(evs, vEvent{kind: 1})
@@ -397,8 +402,21 @@ func (w *vWorld) enabled(maxJobs, maxReloads int) []vEvent {
 			evs = append(evs, vEvent{kind: 5, idx: i})
 		}
 	}
-	if w.reloads < maxReloads {
+	if w.reloads < maxReloads && !w.undefined {
 		evs = append(evs, vEvent{kind: 7})
+	}
+	// the focal pipeline disappears from the definitions (UNDEF) and comes back unchanged (REDEF); SAVE
+	// is the periodic SaveToStore, which purges jobs of pipelines that are not defined
+	if verifBound("undef", 0) == 1 {
+		if !w.undefined && w.undefs < 1 {
+			evs = append(evs, vEvent{kind: 10})
+		}
+		if w.undefined {
+			evs = append(evs, vEvent{kind: 11})
+		}
+		if w.saves < verifBound("saves", 1) {
+			evs = append(evs, vEvent{kind: 12})
+		}
 	}
 	return evs
 }
@@ -694,6 +712,60 @@ func (w *vWorld) doReload() {
 	}
 }
 
+// doUndef: a reload whose definitions no longer contain the focal pipeline.
+func (w *vWorld) doUndef() {
+	w.undefined = true
+	w.undefs++
+	w.reloads++ // monitors that speak of an unchanged definition are off from here on
+	verifEvent("UNDEF")
+	nSpawned := verifSpawnedCount()
+	w.r.ReplaceDefinitions(&definition.PipelinesDef{Pipelines: map[string]definition.PipelineDef{}})
+	w.scanSpawned()
+	verifAssert(verifSpawnedCount() == nSpawned, "C16.reload-starts-or-cancels-nothing")
+	verifReach("undef")
+}
+
+// doRedef: the pipeline is defined again, exactly as before.
+func (w *vWorld) doRedef() {
+	w.undefined = false
+	verifEvent("REDEF")
+	nSpawned := verifSpawnedCount()
+	w.r.ReplaceDefinitions(w.defs)
+	w.scanSpawned()
+	verifAssert(verifSpawnedCount() == nSpawned, "C16.reload-starts-or-cancels-nothing")
+	verifReach("redef")
+}
+
+// doSave: the real SaveToStore with recording stores. No retention is configured in these runs, so
+// the only legitimate removal is the purge of jobs whose pipeline is not defined (C12).
+func (w *vWorld) doSave() {
+	w.saves++
+	if w.r.store == nil {
+		w.out = &vOutputStore{}
+		w.r.store = &vStore{}
+		w.r.outputStore = w.out
+	}
+	verifEvent("SAVE")
+	w.r.SaveToStore()
+	w.scanSpawned()
+	for _, vj := range w.jobs {
+		if vj.removed {
+			continue
+		}
+		found := false
+		_ = w.r.ReadJob(vj.id, func(x *PipelineJob) { found = true })
+		if !found {
+			vj.removed = true
+			verifEvent("  removed " + vj.name)
+			verifAssert(w.undefined, "C12.nothing-removed-without-retention-settings")
+			verifReach("save.purged-a-job")
+			if vj.live {
+				verifReach("save.purged-a-running-job")
+			}
+		}
+	}
+}
+
 // scanSpawned classifies goroutines created since the last scan and runs the spawn monitors.
 func (w *vWorld) scanSpawned() {
 	n := verifSpawnedCount()
@@ -752,6 +824,7 @@ func (w *vWorld) onSpawn(vj *vJob, idx int) {
 	verifEvent("  spawn " + vj.name)
 	verifAssert(!vj.cancelAckWaiting, "C04.canceled-waiting-job-never-starts")
 	verifAssert(!vj.replaced, "C07.replaced-job-never-starts")
+	verifAssert(!vj.removed, "C15.a-job-that-is-no-longer-reported-never-starts")
 	verifAssert(vj.job.Start != nil && !vj.job.Completed, "C01.started-job-reported-running")
 	// C07a: not before accepted + delay (event start instant is a lower bound of the start instant)
 	if w.reloads > 0 && vj.defGen < w.defGen {
@@ -798,7 +871,11 @@ func (w *vWorld) afterEvent() {
 		// C15c: every accepted job is reported
 		found := false
 		_ = w.r.ReadJob(vj.id, func(x *PipelineJob) { found = x == j })
-		verifAssert(found, "C15.accepted-job-reported-by-id")
+		if vj.removed {
+			verifAssert(!found, "C12.removed-job-stays-removed")
+		} else {
+			verifAssert(found, "C15.accepted-job-reported-by-id")
+		}
 		// C15e: time order
 		if j.Start != nil {
 			verifAssert(!j.Start.Before(j.Created), "C15.created<=start")
@@ -812,9 +889,17 @@ func (w *vWorld) afterEvent() {
 	}
 	nListed := 0
 	w.r.IterateJobs(func(x *PipelineJob) { nListed++ })
-	verifAssert(nListed == len(w.jobs), "C15.job-list-complete")
-	li := w.listed()
-	verifAssert(li.Running == (running > 0), "C15.running-flag")
+	nReported := 0
+	for _, vj := range w.jobs {
+		if !vj.removed {
+			nReported++
+		}
+	}
+	verifAssert(nListed == nReported, "C15.job-list-complete")
+	if defined {
+		li := w.listed()
+		verifAssert(li.Running == (running > 0), "C15.running-flag")
+	}
 
 	// C03/C06 (representation): the wait list holds exactly the live waiting jobs, in acceptance order.
 	// A job that waits but is not on the list can never be dequeued; a list out of acceptance order
@@ -854,7 +939,7 @@ func (w *vWorld) afterEvent() {
 
 	// C03: stuck-freedom. The oldest live waiting job must have something pending that will start it.
 	waiting := w.waitingJobs()
-	if len(waiting) > 0 && defined {
+	if len(waiting) > 0 && defined && w.undefs == 0 {
 		h := waiting[0]
 		timerPending := h.timer != nil && !h.timer.fired && !h.timer.stopped
 		timerDone := h.timer == nil || h.timer.fired
@@ -979,8 +1064,14 @@ func VerifBMC() {
 			w.scanSpawned()
 		case 9:
 			w.doTaskCanceled(w.jobs[ev.idx])
+		case 10:
+			w.doUndef()
+		case 11:
+			w.doRedef()
+		case 12:
+			w.doSave()
 		}
-		if !vSamePersistView(viewBefore, w.persistView()) {
+		if ev.kind != 12 && !vSamePersistView(viewBefore, w.persistView()) {
 			verifReach("persist.state-changed")
 			verifAssert(len(w.r.persistRequests) > 0, "C11.acknowledged-change-requests-a-save")
 		}
